@@ -14,7 +14,10 @@ E1 = {
     "C13": (["contracts.c13"], ["DAG.do", "CausalInference.is_valid_backdoor_adjustment_set"]),
     "C14": (["contracts.c14"], ["BayesianNetwork.to_markov_model", "UndirectedGraph.is_clique"]),
     "C15": (["contracts.c15"], ["BayesianNetwork.add_edge", "BayesianNetwork.remove_node", "BayesianNetwork.copy", "MarkovNetwork.add_edge",
-                                 "DynamicBayesianNetwork.add_edge", "DAG.add_edges_from"]),
+                                 "DynamicBayesianNetwork.add_edge", "DAG.add_edges_from",
+                                 # wrapper lemmas: the networkx shortcut the library model takes for these methods is their exact effect
+                                 "DAG.add_node", "DAG.add_nodes_from", "DAG.add_edge", "UndirectedGraph.add_node", "UndirectedGraph.add_nodes_from",
+                                 "UndirectedGraph.add_edge", "UndirectedGraph.add_edges_from"]),
     "C17": (["contracts.c17"], ["DynamicBayesianNetwork.get_inter_edges", "DynamicBayesianNetwork.get_intra_edges",
                                  "DynamicBayesianNetwork.get_slice_nodes", "DynamicBayesianNetwork.get_interface_nodes"]),
     "C18": (["contracts.c18"], ["Independencies.closure.<locals>.sg1", "Independencies.closure.<locals>.sg2",
